@@ -5,6 +5,12 @@ prompts, nesting in menus / ifs / choices, multiple definitions) plus C05-style 
 x ALL assignments of user values over the value domains, x the 4 writer variants (labels x normalize_unset) through
 Kconfig.write_min_config, plus kconfgen.write_min_config.
 
+Environment dimension (option prefix): the choice / label programs and every PREFIX_STRIDE-th program of each C01 family
+are explored again with a non-default option prefix (environment variable CONFIG_ set while the instances -- writer and
+fresh reader -- are created; PREFIXES_Q / PREFIXES_T), all assignments x every writer variant.  Every assignment line of
+every minimal file must then carry the configured prefix (an entry written with another prefix is not an entry of that
+file for its reader), and the round trip must hold exactly as with the stock prefix.
+
 Oracle: a fresh instance that loads the minimal file has the same value for every option as the original;
 the labelled and unlabelled variants contain the same assignment lines in the same order.
 """
@@ -26,9 +32,20 @@ RULE = (
     "programs = C01 families prec/bool/nest/multi + choice programs (conditional members, conditional defaults, named, nested) + "
     "menu-label programs; x all assignments over per-type domains (bool {-,n,y}; int {-,3,7,42}; hex {-,0x5,1f}; string {-,'',v1,'a b'}; "
     "float {-,0.5,5}); x {write_min_config(labels,normalize_unset) for the 4 combinations, kconfgen.write_min_config}. "
-    "distinct_nontrivial = distinct (program, minimal file text) with at least one assignment line."
+    "x option prefix {stock CONFIG_} for every program, and {BOARD_} (thorough: + CONFIG_X_, cfg) for the choice / label programs and every "
+    "25th program of each C01 family (the environment variable CONFIG_ is set when the writer and the reader instance are created). "
+    "distinct_nontrivial = distinct (prefix, program, minimal file text) with at least one assignment line."
 )
-ASSUMPTIONS = ["user values entered with Symbol.set_value in definition order; the minimal file is loaded with load_config(replace=True) into a fresh instance of the same tree"]
+ASSUMPTIONS = [
+    "user values entered with Symbol.set_value in definition order; the minimal file is loaded with load_config(replace=True) into a fresh instance of the same tree",
+    "non-default option prefixes are identifier-like (letters, digits, underscore): the library interpolates the prefix into regular expressions unescaped; "
+    "the reader instance is created under the same prefix as the writer",
+]
+
+# non-default option prefixes (None = stock): a different word, an extension of the stock prefix, one without the underscore
+PREFIXES_Q = ["BOARD_"]
+PREFIXES_T = ["BOARD_", "CONFIG_X_", "cfg"]
+PREFIX_STRIDE = 25
 
 DOM_T = {
     "bool": [None, "n", "y"],
@@ -93,14 +110,42 @@ def items(tier: str, seed: int):
             out.append((name, kgen.render(prog), prog, tier))
     for name, prog in itertools.chain(choice_programs(), label_programs()):
         out.append((name, kgen.render(prog), prog, tier))
+    # environment dimension: non-default option prefix
+    base = list(out)
+    per_fam: Dict[str, int] = {}
+    for prefix in PREFIXES_Q if tier == "quick" else PREFIXES_T:
+        per_fam.clear()
+        for name, files, prog, t in base:
+            i = per_fam.get(name, 0)
+            per_fam[name] = i + 1
+            if name.startswith(("choice", "labels")) or i % PREFIX_STRIDE == 0:
+                out.append((name, files, prog, tier, prefix))
     return out
 
 
 ASSIGN_RE = re.compile(r"^(CONFIG_[A-Za-z0-9_]+=.*|# CONFIG_[A-Za-z0-9_]+ is not set)$")
+# an entry of a configuration file whatever its prefix (used to find entries that do NOT carry the configured prefix)
+ANY_ENTRY_RE = re.compile(r"^([A-Za-z_][A-Za-z0-9_]*=.*|# [A-Za-z_][A-Za-z0-9_]* is not set)$")
+_ASSIGN_RES: Dict[str, Any] = {}
 
 
-def assignment_lines(text: str) -> List[str]:
-    return [l for l in text.splitlines() if ASSIGN_RE.match(l)]
+def assign_re(prefix: Optional[str]):
+    if prefix is None:
+        return ASSIGN_RE
+    rx = _ASSIGN_RES.get(prefix)
+    if rx is None:
+        p = re.escape(prefix)
+        rx = _ASSIGN_RES[prefix] = re.compile(rf"^({p}[A-Za-z0-9_]+=.*|# {p}[A-Za-z0-9_]+ is not set)$")
+    return rx
+
+
+def assignment_lines(text: str, prefix: Optional[str] = None) -> List[str]:
+    rx = assign_re(prefix)
+    return [l for l in text.splitlines() if rx.match(l)]
+
+
+def mk_inst(files, prefix: Optional[str]):
+    return impl.Inst(files, env={"CONFIG_": prefix}) if prefix is not None else impl.Inst(files)
 
 
 def clean_destinations() -> None:
@@ -110,20 +155,23 @@ def clean_destinations() -> None:
             os.unlink(os.path.join(d, f))
 
 
-def check_one(fam: str, files, model, names, assign, r: common.Result, prev=None) -> None:
+def check_one(fam: str, files, model, names, assign, r: common.Result, prev=None, prefix: Optional[str] = None) -> None:
     import kconfgen.core as kg
 
     ptext = files["Kconfig"]
+    ARE = assign_re(prefix)
     # `previous`: the assignment whose minimal configs are still in the destination files when this one is written
     case = {"family": fam, "program": ptext, "files": files, "names": names, "assign": list(assign), "previous": list(prev) if prev is not None else None}
-    label = f"[{fam} {dict((n, v) for n, v in zip(names, assign) if v is not None)}{' after ' + str(dict((n, v) for n, v in zip(names, prev) if v is not None)) if prev is not None else ''}]"
+    if prefix is not None:
+        case["prefix"] = prefix
+    label = f"[{fam}{' prefix=' + prefix if prefix is not None else ''} {dict((n, v) for n, v in zip(names, assign) if v is not None)}{' after ' + str(dict((n, v) for n, v in zip(names, prev) if v is not None)) if prev is not None else ''}]"
     d = impl.wdir()
     clean_destinations()
     if prev is not None:
         # the destinations hold the minimal configs of the previous assignment of the enumeration (self-contained:
         # written here from scratch, so that a replay of (previous, assign) sees exactly the same files)
         try:
-            pi = impl.Inst(files)
+            pi = mk_inst(files, prefix)
             for n, v in zip(names, prev):
                 if v is not None:
                     pi.k.syms[n].set_value(v)
@@ -138,8 +186,10 @@ def check_one(fam: str, files, model, names, assign, r: common.Result, prev=None
                     os.environ.pop("ESP_IDF_KCONFIG_MIN_LABELS", None)
         except Exception:  # noqa: BLE001 -- reported when that assignment is the current one
             clean_destinations()
-    inst = impl.Inst(files)
+    inst = mk_inst(files, prefix)
     k = inst.k
+    if prefix is not None and k.config_prefix != prefix:
+        raise RuntimeError(f"harness: prefix {prefix!r} not picked up ({k.config_prefix!r})")
     for n, v in zip(names, assign):
         if v is not None:
             k.syms[n].set_value(v)
@@ -171,12 +221,12 @@ def check_one(fam: str, files, model, names, assign, r: common.Result, prev=None
     c = impl.core()
     seen_texts = set()
     for variant, text in texts.items():
-        body = "\n".join(l for l in text.splitlines() if not l.startswith("#") or ASSIGN_RE.match(l) or l.strip() == "# default:")
+        body = "\n".join(l for l in text.splitlines() if not l.startswith("#") or ARE.match(l) or l.strip() == "# default:")
         if body in seen_texts:
             continue  # same assignment / pragma lines as a variant already reloaded (headers and labels are comments)
         seen_texts.add(body)
         r.evals += 1
-        f = impl.Inst(files)
+        f = mk_inst(files, prefix)
         try:
             f.load_text(text)
         except Exception as e:  # noqa: BLE001
@@ -186,18 +236,29 @@ def check_one(fam: str, files, model, names, assign, r: common.Result, prev=None
         if fv != vals:
             diff = {n: (vals[n], fv[n]) for n in vals if vals[n] != fv[n]}
             feats = sorted({feature(k.syms[n], c) for n in diff})
-            r.violation({"kind": "value_not_reconstructed", "features": feats, "labels": "labels=True" in variant or "labels=1" in variant},
+            sig = {"kind": "value_not_reconstructed", "features": feats, "labels": "labels=True" in variant or "labels=1" in variant}
+            if prefix is not None:
+                sig["prefix"] = "non-default"
+            r.violation(sig,
                         f"{label} {variant}: original vs reloaded {diff}; minimal file: {text!r}", case)
-    base = assignment_lines(texts["labels=False,normalize=False"])
-    lab = assignment_lines(texts["labels=True,normalize=False"])
+    if prefix is not None:
+        # every entry of the file carries the configured prefix (string values that read like entries are inside quotes,
+        # hence never match ANY_ENTRY_RE at the start of a line)
+        for variant, text in texts.items():
+            foreign = [l for l in text.splitlines() if ANY_ENTRY_RE.match(l) and not ARE.match(l)]
+            if foreign:
+                r.violation({"kind": "entry_without_configured_prefix", "normalize": "normalize=True" in variant or variant.startswith("kconfgen")},
+                            f"{label} {variant}: entries not carrying the prefix {prefix!r}: {foreign}; minimal file: {text!r}", case)
+    base = assignment_lines(texts["labels=False,normalize=False"], prefix)
+    lab = assignment_lines(texts["labels=True,normalize=False"], prefix)
     if base != lab:
         r.violation({"kind": "labelled_differs_from_unlabelled", "same_set": sorted(base) == sorted(lab)}, f"{label} unlabelled lines {base} vs labelled {lab}", case)
-    basen = assignment_lines(texts["labels=False,normalize=True"])
-    labn = assignment_lines(texts["labels=True,normalize=True"])
+    basen = assignment_lines(texts["labels=False,normalize=True"], prefix)
+    labn = assignment_lines(texts["labels=True,normalize=True"], prefix)
     if basen != labn:
         r.violation({"kind": "labelled_differs_from_unlabelled", "normalize": True, "same_set": sorted(basen) == sorted(labn)}, f"{label} (normalize_unset) unlabelled lines {basen} vs labelled {labn}", case)
     if base:
-        r.outcome((ptext, texts["labels=False,normalize=False"]))
+        r.outcome((prefix, ptext, texts["labels=False,normalize=False"]) if prefix is not None else (ptext, texts["labels=False,normalize=False"]))
 
 
 def feature(s, c) -> str:
@@ -222,24 +283,29 @@ def feature(s, c) -> str:
 
 
 def run_item(item) -> common.Result:
-    fam, files, prog, tier = item
+    fam, files, prog, tier = item[:4]
+    prefix = item[4] if len(item) > 4 else None
     r = common.Result()
     r.programs = 1
     model = refsem.build(prog)
     names = [n for n in model.order if any(d.prompt is not None for d in model.syms[n].defs)]
     DOM = DOM_Q if tier == "quick" else DOM_T
     doms = [DOM[model.syms[n].type] for n in names]
+    if prefix is not None:
+        # the string value that reads like an entry of the file is spelt with the configured prefix as well
+        doms = [d + [v.replace("CONFIG_", prefix) for v in d if v and "CONFIG_" in v] for d in doms]
+        r.count("programs_with_non_default_prefix")
     n = 0
     prev = None
     for assign in itertools.product(*doms):
-        check_one(fam, files, model, names, assign, r, prev)
+        check_one(fam, files, model, names, assign, r, prev, prefix)
         prev = assign
         n += 1
-    r.sample = {"family": fam, "program": files["Kconfig"], "assignments": n}
+    r.sample = {"family": fam, "program": files["Kconfig"], "assignments": n, "prefix": prefix}
     return r
 
 
 def replay(case) -> List[dict]:
     r = common.Result()
-    check_one(case["family"], case["files"], None, case["names"], tuple(case["assign"]), r, case.get("previous"))
+    check_one(case["family"], case["files"], None, case["names"], tuple(case["assign"]), r, case.get("previous"), case.get("prefix"))
     return r.viols
